@@ -56,12 +56,19 @@ Definition case_out (c : evm_case) : res bytes :=
 Definition case_vok (c : evm_case) : bool :=
   match c with ELegacy _ _ _ v _ | EUnpacked _ _ _ v _ | EStream _ _ _ _ v _ => v end.
 
-(* result: mismatches; C12 failures; C12 failures outside the recorded findings; panics (C11);
+Definition case_f4 (c : evm_case) : bool :=
+  match c with
+  | ELegacy (Some o) _ r _ _ => f4_region (lo_fee o) r
+  | EUnpacked (Some o) _ r _ _ => f4_region (uo_fee o) r
+  | _ => false
+  end.
+(* result: mismatches; C12 failures; C12 failures outside the recorded findings; panics (C11); panics outside the F4 region;
    [cases; verified; ok; err; panic] *)
 Definition evm_eval (cs : list evm_case) :=
   (index_where (fun c => negb (evm_agrees c)) cs,
    index_where (fun c => negb (c12_case false c)) cs,
    index_where (fun c => negb (c12_case true c)) cs,
    index_where (fun c => is_panic (case_out c)) cs,
+   index_where (fun c => is_panic (case_out c) && negb (case_f4 c)) cs,
    [length cs; length (filter case_vok cs); length (filter (fun c => is_ok (case_out c)) cs);
     length (filter (fun c => is_err (case_out c)) cs); length (filter (fun c => is_panic (case_out c)) cs)]).
